@@ -166,4 +166,8 @@ TraceInv == FsInv /\ ObjInv
 
 Check == /\ TraceInv \/ PrintT(<<"REJECT", ToJson([id |-> Traces[tid].id, failing |-> {<<"clause", "spec_invariant">>}])>>)
          /\ bad # {} => PrintT(<<"REJECT", ToJson([id |-> Traces[tid].id, failing |-> bad])>>)
+         \* the specification is nondeterministic and part of its state is not observable (has the object staged out
+         \* already?): a trace is accepted when SOME resolution reaches its end - the harness discards the REJECT lines
+         \* of traces that also have an ACCEPT line
+         /\ (tid > 0 /\ bad = {} /\ l > Len(Traces[tid].ev)) => PrintT(<<"ACCEPT", ToJson([id |-> Traces[tid].id])>>)
 =============================================================================
